@@ -491,3 +491,24 @@ if __name__ == "__main__":
     case = json.loads(sys.argv[1])
     _p, st = trace(case)
     print(json.dumps({k: v.tolist() for k, v in flat(st).items()}))
+
+
+# ---------------------------------------------------------------------------------------------- suite workload
+# second workload source: the repository's own tests run under the monitor plugin (oasverif/plugin.py, oasverif/monitors.py);
+# only the monitors that serve this property decide here
+_cases_generated = cases
+_run_case_generated = run_case
+
+
+def cases(tier, seed):
+    return _cases_generated(tier, seed) + [dict(kind="suite", tier=tier, _cost=200)]
+
+
+def run_case(c):
+    if c["kind"] != "suite":
+        return _run_case_generated(c)
+    from .. import suite
+
+    o = Obs()
+    suite.observe(o, "C20", c.get("tier", "quick"), finite=True)
+    return o
